@@ -50,47 +50,57 @@ Record kst := { kp : list N;                       (* IPs for which a CreatePerm
                 kq : list (addr * bytes);          (* relayed payloads not read yet, with the peer they must be attributed to *)
                 knums : list (addr * N) }.         (* number assigned to each peer, from the ChannelBind requests seen *)
 
+(* ---- the pieces of one step of the trace predicate ---- *)
+(* permissions that this step's successful CreatePermission establishes: the server granted one iff it answered success
+   to a CreatePermission request that was really sent - the k-th request on the wire consumes the k-th scripted reaction *)
+Definition k_nreq (w : list wire) : nat := length (filter (fun m => match m with WCreatePerm _ => true | _ => false end) w).
+Definition k_newperms (e : cevent) (w : list wire) : list N :=
+  match e with
+  | CWrite p _ reacts =>
+      if existsb (fun r => match r with POk => true | _ => false end) (firstn (k_nreq w) reacts) then [ip p] else []
+  | _ => [] end.
+Definition k_kc' (st : kst) (e : cevent) : list (N * addr) :=
+  match e with
+  | CBindReact p BOk =>
+      match find (fun x => addr_eqb (fst x) p) (knums st) with Some x => (snd x, p) :: kc st | None => kc st end
+  | _ => kc st end.
+Definition k_knums' (st : kst) (w : list wire) : list (addr * N) :=
+  flat_map (fun m => match m with WChannelBind n p => [(p, n)] | _ => [] end) w ++ knums st.
+(* data leaves only toward permitted peers, ChannelData only on a confirmed binding, every peer its own number *)
+Definition k_data (st : kst) (kp' : list N) (e : cevent) (w : list wire) : bool :=
+  forallb (fun m => match m, e with
+     | WSend p _, CWrite p' _ _ => addr_eqb p p' && existsb (N.eqb (ip p)) kp'
+     | WChanData n _, CWrite p' _ _ => existsb (fun x => (fst x =? n)%N && addr_eqb (snd x) p') (kc st) && existsb (N.eqb (ip p')) kp'
+     | WSend _ _, _ | WChanData _ _, _ => false
+     | WChannelBind n p, _ => valid_chan n && forallb (fun x => Bool.eqb (addr_eqb (fst x) p) (snd x =? n)%N) (knums st)
+     | _, _ => true end) w.
+Definition k_payload (e : cevent) (w : list wire) : bool :=
+  forallb (fun m => match m, e with
+     | WSend _ d, CWrite _ d' _ | WChanData _ d, CWrite _ d' _ => beqb d d'
+     | _, _ => true end) w.
+(* what ReadFrom returns *)
+Definition k_kq1 (st : kst) (e : cevent) (ret : cret) : list (addr * bytes) :=
+  match e, ret with
+  | CInData from d, _ => if (length (kq st) <? queue_cap)%nat then kq st ++ [(from, d)] else kq st
+  | CInChan n d, RNone =>
+      match find (fun x => (snd x =? n)%N) (knums st) with
+      | Some x => if (length (kq st) <? queue_cap)%nat then kq st ++ [(fst x, d)] else kq st
+      | None => kq st end
+  | _, _ => kq st end.
+Definition k_read (st : kst) (e : cevent) (ret : cret) : bool :=
+  match e, ret with
+  | CRead, RRead f d => match kq st with (f', d') :: _ => addr_eqb f f' && beqb d d' | [] => false end
+  | CRead, _ => match kq st with [] => true | _ => false end
+  | CInChan n _, RInErr => match find (fun x => (snd x =? n)%N) (knums st) with None => true | Some _ => false end
+  | _, _ => true end.
+
 Definition k_step (st : kst) (o : cobs) : bool * kst :=
   let w := co_wire o in
-  (* permissions that this step's successful CreatePermission establishes *)
-  (* the server granted one iff it answered success to a CreatePermission request that was really sent: the k-th
-     request on the wire consumes the k-th scripted reaction *)
-  let nreq := length (filter (fun m => match m with WCreatePerm _ => true | _ => false end) w) in
-  let new_perms := match co_ev o with
-                   | CWrite p _ reacts =>
-                       if existsb (fun r => match r with POk => true | _ => false end) (firstn nreq reacts) then [ip p] else []
-                   | _ => [] end in
-  let kp' := new_perms ++ kp st in
-  let kc' := match co_ev o with CBindReact p BOk =>
-               match find (fun x => addr_eqb (fst x) p) (knums st) with Some x => (snd x, p) :: kc st | None => kc st end
-             | _ => kc st end in
-  let knums' := flat_map (fun m => match m with WChannelBind n p => [(p, n)] | _ => [] end) w ++ knums st in
-  let data_ok := forallb (fun m => match m, co_ev o with
-                    | WSend p _, CWrite p' _ _ => addr_eqb p p' && existsb (N.eqb (ip p)) kp'
-                    | WChanData n _, CWrite p' _ _ => existsb (fun x => (fst x =? n)%N && addr_eqb (snd x) p') (kc st) && existsb (N.eqb (ip p')) kp'
-                    | WSend _ _, _ | WChanData _ _, _ => false
-                    | WChannelBind n p, _ => valid_chan n &&
-                        (* every peer its own number *)
-                        forallb (fun x => Bool.eqb (addr_eqb (fst x) p) (snd x =? n)%N) (knums st)
-                    | _, _ => true end) w in
-  let payload_ok := forallb (fun m => match m, co_ev o with
-                    | WSend _ d, CWrite _ d' _ | WChanData _ d, CWrite _ d' _ => beqb d d'
-                    | _, _ => true end) w in
-  (* what ReadFrom returns *)
-  let kq1 := match co_ev o, co_ret o with
-             | CInData from d, _ => if (length (kq st) <? queue_cap)%nat then kq st ++ [(from, d)] else kq st
-             | CInChan n d, RNone =>
-                 match find (fun x => (snd x =? n)%N) (knums st) with
-                 | Some x => if (length (kq st) <? queue_cap)%nat then kq st ++ [(fst x, d)] else kq st
-                 | None => kq st end
-             | _, _ => kq st end in
-  let read_ok := match co_ev o, co_ret o with
-                 | CRead, RRead f d => match kq st with (f', d') :: _ => addr_eqb f f' && beqb d d' | [] => false end
-                 | CRead, _ => match kq st with [] => true | _ => false end
-                 | CInChan n _, RInErr => match find (fun x => (snd x =? n)%N) (knums st) with None => true | Some _ => false end
-                 | _, _ => true end in
+  let kp' := k_newperms (co_ev o) w ++ kp st in
+  let kq1 := k_kq1 st (co_ev o) (co_ret o) in
   let kq' := match co_ev o, co_ret o with CRead, RRead _ _ => tl kq1 | _, _ => kq1 end in
-  (data_ok && payload_ok && read_ok, {| kp := kp'; kc := kc'; kq := kq'; knums := knums' |}).
+  (k_data st kp' (co_ev o) w && k_payload (co_ev o) w && k_read st (co_ev o) (co_ret o),
+   {| kp := kp'; kc := k_kc' st (co_ev o); kq := kq'; knums := k_knums' st w |}).
 
 Fixpoint holds_from (st : kst) (steps : list cobs) : bool :=
   match steps with [] => true | o :: r => let '(ok, st') := k_step st o in ok && holds_from st' r end.
